@@ -10,7 +10,7 @@ use serde_json::json;
 pub fn explore(opts: &Opts) -> Explored {
     let (rank, dim) = match opts.tier {
         Tier::Quick => (4, 3),
-        Tier::Thorough => (4, 4),
+        Tier::Thorough => (4, 5),
     };
     let mut sh = shapes(rank, dim);
     sh.extend(long_shapes());
